@@ -144,6 +144,38 @@ pub fn run(r: &mut Report) {
             r.case("same-material-every-scheme-in-sequence", json!({"material": mat, "constructions": seen.len()}), "every id is the hash of its own description; different descriptions, different ids", format!("{:?}", bad), bad.is_empty() && !seen.is_empty());
         }
     }
+    // freshly generated Ed25519 keys whose material begins or ends with 0x00 / 0xff (a reader that "skips padding" would damage them):
+    // the SPKI form, the raw form, the private key and JSON all give the same key and id, and the SPKI re-exports unchanged
+    {
+        let mut wanted: Vec<(&str, Box<dyn Fn(&[u8]) -> bool>)> = vec![("first byte 0x00", Box::new(|b: &[u8]| b[0] == 0)), ("last byte 0x00", Box::new(|b: &[u8]| b[31] == 0)),
+            ("first byte 0xff", Box::new(|b: &[u8]| b[0] == 0xff)), ("first byte 0x30 (looks like DER)", Box::new(|b: &[u8]| b[0] == 0x30)), ("first byte 0x04", Box::new(|b: &[u8]| b[0] == 0x04)), ("any", Box::new(|_b: &[u8]| true))];
+        let mut tries = 0;
+        while !wanted.is_empty() && tries < 20000 {
+            tries += 1;
+            let pk8 = match PrivateKey::new(in_toto::crypto::KeyType::Ed25519) { Ok(b) => b, Err(_) => break };
+            let sk = match PrivateKey::from_pkcs8(&pk8, SignatureScheme::Ed25519) { Ok(k) => k, Err(_) => continue };
+            let raw = sk.public().as_bytes().to_vec();
+            if raw.len() != 32 { continue; }
+            let hit = wanted.iter().position(|(_, f)| f(&raw));
+            if let Some(i) = hit {
+                let (what, _) = wanted.remove(i);
+                let mut der = vec![0x30, 0x2a, 0x30, 0x05, 0x06, 0x03, 0x2b, 0x65, 0x70, 0x03, 0x21, 0x00];
+                der.extend_from_slice(&raw);
+                let from_spki = no_panic(|| PublicKey::from_spki(&der, SignatureScheme::Ed25519)).ok().and_then(|x| x.ok());
+                let pem_text = pem::encode(&pem::Pem::new("PUBLIC KEY", der.clone()));
+                let from_pem = no_panic(|| PublicKey::from_pem_spki(&pem_text, SignatureScheme::Ed25519)).ok().and_then(|x| x.ok());
+                let from_json = from_spki.as_ref().and_then(|k| serde_json::to_string(k).ok()).and_then(|j| serde_json::from_str::<PublicKey>(&j).ok());
+                let ids: Vec<String> = [&from_spki, &from_pem, &from_json, &Some(sk.public().clone())].iter().map(|k| k.as_ref().map(|k| format!("{:?}", k.key_id())).unwrap_or_else(|| "none".into())).collect();
+                let same = ids.iter().all(|i| i == &ids[0] && i != "none") && from_spki.as_ref().map(|k| k.as_bytes() == &raw[..]).unwrap_or(false);
+                let reexport = from_spki.as_ref().and_then(|k| k.as_spki().ok());
+                let msg = b"message";
+                let sig_ok = match (&from_spki, sk.sign(msg)) { (Some(k), Ok(sig)) => k.verify(msg, &sig).is_ok(), _ => false };
+                r.case("generated-ed25519-keys-with-special-bytes", json!({"material": what, "first_bytes": format!("{:02x}{:02x}..{:02x}", raw[0], raw[1], raw[31])}), "one key and id from SPKI DER, SPKI PEM, private key and JSON; SPKI re-exported unchanged; verifies its own signature",
+                       format!("ids={:?} reexport_equal={} verifies={}", ids, reexport.as_deref() == Some(&der[..]), sig_ok), same && reexport.as_deref() == Some(&der[..]) && sig_ok);
+            }
+        }
+        r.case("generated-ed25519-keys-coverage", json!({"keys_generated": tries}), "a key of every wanted shape was found", format!("not found: {:?}", wanted.iter().map(|(n, _)| *n).collect::<Vec<_>>()), wanted.is_empty());
+    }
     // RFC 8410 ed25519 SPKI (AlgorithmIdentifier without parameters) must be importable
     let raw = key(1).public().as_bytes().to_vec();
     let mut rfc8410 = vec![0x30, 0x2a, 0x30, 0x05, 0x06, 0x03, 0x2b, 0x65, 0x70, 0x03, 0x21, 0x00];
